@@ -142,7 +142,8 @@ def frames_uninterrupted(k, strand):
     return fn
 
 
-GENOME = "ATGAAACCCTAGGGTTGATAATTTCTGCATACGTGACTAG"  # 40 nt with ATG / TTG / CTG / GTG and TAG / TGA / TAA in several frames
+GENOME = "TTGTGATGCAACACATCAGTAGGGTTGATAATTTCTGCAT"  # 40 nt: the first codons reachable from the small start offsets are TTG TGT GTG TGA GAT ATG (plus strand) and, read from
+# the minus strand around positions 8..19, CAA/CAC/CAT/CAG = reverse complements of TTG GTG ATG CTG (alternative starts of tables 1 / 11) and stops
 
 
 def sequence_legs(lens, strand):
